@@ -78,6 +78,21 @@ func vAssert(c bool, label string) {
 
 func vReach(label string) {}
 
+// vChoose returns a byte of alphabet selected by replayed selector bits.
+func vChoose(name string, alphabet string) byte {
+	nbits := 0
+	for (1 << nbits) < len(alphabet) {
+		nbits++
+	}
+	idx := 0
+	for i := 0; i < nbits; i++ {
+		if vBool(fmt.Sprintf("%s.b%d", name, i)) {
+			idx += 1 << i
+		}
+	}
+	return alphabet[idx%len(alphabet)]
+}
+
 // Branch-free boolean connectives (the engine maps them to term operations so
 // that harness assertions do not fork paths).
 func vAnd(a, b bool) bool     { return a && b }
